@@ -19,7 +19,7 @@
  *   <half> for crosslap may be two digits "ab": a = half-rate setting of vf1, b = of vf2 (mixed settings); one digit = both
  *   A = vf2 alone (no crosslap), B = ov_crosslap(vf1,vf2) then read-through of vf2 and afterwards of vf1,
  *   C = vf1 alone: lap source taken, then read-through (what vf1 must still deliver after the crosslap).
- * history ops: rf<n> (one ov_read_float call), rx<n> (read exactly n samples, several calls), ps pp rs ts tp PS PP RS TS TP
+ * history ops: h1 (ov_halfrate(vf,1), for streams that must refuse it; its return code is printed as Q=), rf<n> (one ov_read_float call), rx<n> (read exactly n samples, several calls), ps pp rs ts tp PS PP RS TS TP
  *
  * output: <idx> A=<rc>:<tell> B=<rc>:<tell> O=<ready_state>:<link>:<ch>:<n1>:<tell> S=<status>:<decoded>:<lapout>
  *               N=<link2>:<ch2>:<n2>:<n>:<avail>:<follow> T=<tail verdict> L=<judged>:<nfail>:<first>:<ch>:<got>:<exp>:<last>:<ndiff>:<xlap>
@@ -71,11 +71,13 @@ static void read_through(OggVorbis_File *vf,rt_t *r){
   }
 }
 
+static long g_h1rc=1;   /* return code of the last "h1" history op of the current case (1 = none) */
 static int plain_of(int c){ return c>='A'&&c<='Z'?c-'A'+'a':c; }
 /* one history / seek op; returns the library's return code */
 static long do_op(OggVorbis_File *vf,const char *tok,int *bad){
   if(!strncmp(tok,"rf",2)){ float **pcm; int bs=-1; return ov_read_float(vf,&pcm,atoi(tok+2),&bs); }
   if(!strncmp(tok,"rx",2)){ long want=atol(tok+2),got=0; while(got<want){ float **pcm; int bs=-1; long r=ov_read_float(vf,&pcm,(int)(want-got),&bs); if(r<=0)return r<0?r:got; got+=r; } return got; }
+  if(!strcmp(tok,"h1")){ long rc=ov_halfrate(vf,1); g_h1rc=rc; return rc; }   /* only used where it must be refused: the case stays a full-rate case */
   if(!strncmp(tok,"ps",2))return ov_pcm_seek(vf,atoll(tok+2));
   if(!strncmp(tok,"pp",2))return ov_pcm_seek_page(vf,atoll(tok+2));
   if(!strncmp(tok,"rs",2))return ov_raw_seek(vf,atoll(tok+2));
@@ -243,7 +245,7 @@ int main(int argc,char **argv){
     if(half1){ need_href(F1); if(!F1->href.ok){ printf("%ld NOHALF\n",idx); fflush(stdout); continue; } }
     if(half2){ need_href(F2); if(!F2->href.ok){ printf("%ld NOHALF\n",idx); fflush(stdout); continue; } }
     memset(&it,0,sizeof(it)); it.it_value.tv_sec=timeout; setitimer(ITIMER_VIRTUAL,&it,NULL);
-    h_init(&ha); h_init(&hb); h_init(&hc); h_init(&hb1);
+    h_init(&ha); h_init(&hb); h_init(&hc); h_init(&hb1); g_h1rc=1;
 
     if(kind=='S'){
       char pop[64]; strcpy(pop,op); pop[0]=plain_of(op[0]); pop[1]=plain_of(op[1]);
@@ -290,9 +292,9 @@ int main(int argc,char **argv){
       same_rt(&RA,&RB,cm.tail,sizeof(cm.tail)); cm.first=cm.last=-1;
     }else{ strcpy(cm.tail,"-"); cm.first=cm.last=-1; }
     memset(&it,0,sizeof(it)); setitimer(ITIMER_VIRTUAL,&it,NULL);
-    printf("%ld A=%ld:%ld B=%ld:%ld O=%d:%d:%d:%d:%ld S=%s:%ld:%ld N=%d:%d:%ld:%ld:%ld:%ld T=%s L=%ld:%ld:%ld:%d:%.9g:%.9g:%ld:%ld:%ld V=%s H=%s\n",
+    printf("%ld A=%ld:%ld B=%ld:%ld O=%d:%d:%d:%d:%ld S=%s:%ld:%ld N=%d:%d:%ld:%ld:%ld:%ld T=%s L=%ld:%ld:%ld:%d:%.9g:%.9g:%ld:%ld:%ld V=%s H=%s Q=%ld\n",
       idx,rcA,tA,rcB,tB,S.rs,S.k,S.ch,S.n1,S.tell,s_names[S.status],S.dec,S.lap,k2,ch2,n2,n,avail,RA.total,cm.tail,
-      cm.judged,cm.nfail,cm.first,cm.fch,(double)cm.got,cm.exp,cm.last,cm.ndiff,cm.xlap,vres,hres);
+      cm.judged,cm.nfail,cm.first,cm.fch,(double)cm.got,cm.exp,cm.last,cm.ndiff,cm.xlap,vres,hres,g_h1rc);
     fflush(stdout);
     rt_free(&RA); rt_free(&RB); rt_free(&RC1); rt_free(&RB1); src_free(&S);
   }
